@@ -45,6 +45,17 @@ CrossPoint(a, b, c, d) ==
         yn == a[2] * dn + tn * (b[2] - a[2])
     IN IF dn > 0 THEN <<xn, yn, dn>> ELSE <<-xn, -yn, -dn>>
 
+(* The dtype of the vertex coordinates is an input class of its own: the same lattice-valued   *)
+(* curve / polygon, every coordinate exactly representable in the type, handed over as an array *)
+(* of that type.  The crossings / design conditions are those of the NUMBERS (double precision): *)
+(* differences, negations and products of narrow or unsigned integers wrap around when they are  *)
+(* formed in the type of the input (int8: 100 - (-100); uint8: 0 - 10), half / single precision  *)
+(* locates a crossing to 1e-3 / 1e-7 only.  harness/c17.py hands typed copies of lattice pairs,   *)
+(* random integer polylines and lattice polygons (scaled so that the extent exceeds half the      *)
+(* range of the signed types) to the real routines; Trace_C17 asserts that every type occurred.   *)
+CoordTypes == {"int8", "int16", "int32", "int64", "uint8", "uint16", "uint32", "uint64",
+               "float16", "float32", "float64"}
+
 (* 0 <= num/den <= 1 for den # 0 *)
 InUnit(num, den) == IF den > 0 THEN 0 <= num /\ num <= den ELSE den <= num /\ num <= 0
 InUnitOpenRight(num, den) == IF den > 0 THEN 0 <= num /\ num < den ELSE den < num /\ num <= 0
